@@ -69,8 +69,12 @@ RegApply(s, skip, hasSvc, svc, cs) ==
       rs == IF hasSvc THEN Put(s.rsvcs, svc.id, SrvSvc(svc)) ELSE s.rsvcs
       row(c) == [id |-> c.id, svc |-> c.svc, status |-> c.status, output |-> c.output,
                  stags |-> IF c.svc = "" THEN "" ELSE rs[c.svc].tag]      \* "Copy in the service name and tags"
+      \* ensureServiceTxn: a service that changes its tags rewrites the copies held by its checks
+      retag == hasSvc /\ Has(s.rsvcs, svc.id) /\ s.rsvcs[svc.id].tag # rs[svc.id].tag
       rc == [i \in DOMAIN s.rchks \cup {c.id : c \in cs} |->
-               IF \E c \in cs : c.id = i THEN row(CHOOSE c \in cs : c.id = i) ELSE s.rchks[i]]
+               IF \E c \in cs : c.id = i THEN row(CHOOSE c \in cs : c.id = i)
+               ELSE IF retag /\ s.rchks[i].svc = svc.id THEN [s.rchks[i] EXCEPT !.stags = rs[svc.id].tag]
+               ELSE s.rchks[i]]
   IN [s EXCEPT !.rnode = rn, !.rsvcs = rs, !.rchks = rc]
 \* deleteServiceTxn: the service and, in cascade, its checks
 DeregSvc(s, id) == IF ~Has(s.rsvcs, id) THEN s
